@@ -94,6 +94,9 @@ var (
 	sLockWaits uint64            // times a task found a lock held by a descheduled task
 	sTaskG     [maxTasks]uintptr // goroutine identity of every task
 	sForeign   uint64            // hook calls from goroutines the simulator does not own
+	sBlkStreak uint64            // lock/channel waits in a row without any statement of the tree in between
+	sBlkMask   uint64            // tasks that waited during the streak
+	sBlkSince  int64             // real time (ns) at which the streak began
 	sPrioFloor int32
 
 	// strategy parameters
@@ -203,6 +206,7 @@ func yieldHook(site int) {
 		return
 	}
 	if site >= 0 {
+		sBlkStreak, sBlkMask = 0, 0 // a task executes a statement of the tree: nobody is deadlocked yet
 		if site < len(siteHit) {
 			siteHit[site]++
 		}
@@ -226,6 +230,31 @@ func yieldHook(site int) {
 func blockedYield(me int, mustSwitch bool) {
 	sStep++
 	sLockWaits++
+	if mustSwitch {
+		// O9 (liveness): every runnable task sits in a rewritten Lock / channel loop and none of them has executed a
+		// statement of the tree for half a second of real time and thousands of rounds: each waits for something only
+		// another waiting (or finished) task could release.  Judged only where every party is a task (no goroutine
+		// of the tree's own, no timer or finalizer has ever reached the hook in this process).
+		if sBlkStreak == 0 {
+			sBlkSince = time.Now().UnixNano()
+		}
+		sBlkStreak++
+		sBlkMask |= 1 << uint(me)
+		if sBlkStreak&1023 == 0 {
+			runtime.Gosched() // whoever else there may be gets a turn
+			if sBlkStreak >= 8192 && sForeign == 0 && !hook.OpOnly && time.Now().UnixNano()-sBlkSince > 500e6 {
+				all := true
+				for i := 0; i < sN; i++ {
+					if sState[i] == stRunnable && sBlkMask&(1<<uint(i)) == 0 {
+						all = false
+					}
+				}
+				if all && sPendN == 0 && deadlockFn != nil {
+					deadlockFn(me, sBlkMask)
+				}
+			}
+		}
+	}
 	mixHash(uint64(me)+5000, sStep)
 	if sPendN > 0 {
 		deliverDue(false)
@@ -275,13 +304,18 @@ func blockedYield(me int, mustSwitch bool) {
 		runtime.Gosched()
 		return
 	}
-	recordSwitch(me, next, true)
+	if sBlkStreak < 512 {
+		recordSwitch(me, next, true) // (a replay falls back to round-robin when the record ends: waiting tasks stay waiting)
+	}
 	sSwitches++
 	setCur(next)
 	for sCur != me {
 		runtime.Gosched()
 	}
 }
+
+// deadlockFn reports a deadlock among the tasks and ends the process (set by main).
+var deadlockFn func(me int, mask uint64)
 
 // The simulated clock is the real clock plus hook.ClockOffset; in runs that ask for it the offset jumps forward
 // by anything between a millisecond and three days (code that walks a window second by second is legitimate: a month would cost it millions of iterations) at points chosen by a generator of its own (a pure function of the
